@@ -65,7 +65,7 @@ def _keys(rng, n, pool, style):
     return out[:n]
 
 
-def gen_table(rng, n=None, time=None, nan=False):
+def gen_table(rng, n=None, time=None, nan=False, inf=False):
     if n is None:
         n = rng.choice([2, 3, 4, 5, 6, 7, 8, 10, 12, 16])
     if time is None:
@@ -86,6 +86,9 @@ def gen_table(rng, n=None, time=None, nan=False):
                 x[i] = None
         if not any(v is None for v in x):
             x[rng.randrange(n)] = None
+    if inf and rng.random() < 0.06:
+        # +-inf among the values (only where no aggregation has to take values out again: inf - inf is NaN for everybody)
+        x[0 if rng.random() < 0.6 else rng.randrange(n)] = float('inf') if rng.random() < 0.5 else float('-inf')
     t = None
     if time:
         t, cur = [], 0
@@ -693,9 +696,9 @@ def p_onepass(root, op):
 # --------------------------------------------------------------------------
 
 def set_tolerance(tab):
-    xs = [v for v in tab['x'] if v is not None]
+    xs = [v for v in tab['x'] if v is not None and v not in (float('inf'), float('-inf'))]
     ill = len(xs) > 1 and len(set(xs)) == 1 and xs[0] not in (0.0,) and float(xs[0]) * 4 != int(float(xs[0]) * 4)
-    TOL['atol'] = 1e-6 if ill else ATOL
+    TOL['atol'] = 1e-5 if ill else ATOL
     return ill
 
 
@@ -926,7 +929,7 @@ class Ctx(object):
             return
         self.case_seen.add(key)
         self.count('mismatch@' + mech)
-        size = (sum(case['sizes']), len(case['sizes']), len(json.dumps(case['op'])))
+        size = (sum(case['sizes']), len(case['sizes']), len(json.dumps(case.get('op', case.get('agg')))))
         lst = self.viol.setdefault(key, [])
         lst.append((size, {'key': key, 'what': what, 'case': case}))
         lst.sort(key=lambda p: p[0])
@@ -1207,3 +1210,79 @@ def drive(pid, seed, tier, shard, nshards, gen_cases, check, nontrivial_min=2, s
             if len(samples) < 2 and not ctx.case_seen and sample_fn is not None:     # a case that held
                 samples.append(sample_fn(case, compared))
     return ctx.result(n, keys, samples)
+
+
+# --------------------------------------------------------------------------
+# frames whose column labels are integers (0, 1, 2): label 0 is falsy
+# --------------------------------------------------------------------------
+
+def gen_intlabel_case(rng, windowed):
+    n = rng.randrange(3, 11)
+    rows = [[rng.randrange(-8, 9) / 4.0, rng.randrange(0, 3), rng.randrange(0, 5)] for _ in range(n)]
+    sizes = gen_sizes(rng, n, style=rng.choice(['random', 'ones', 'whole', 'random']), max_batches=6)
+    return {'intlabel': True, 'rows': rows, 'sizes': sizes, 'sel': rng.choice([0, 0, 2, [0, 2]]), 'by': rng.choice([1, 1, 2]),
+            'agg': rng.choice(['sum', 'count', 'mean', 'size', 'var']), 'win': rng.choice([2, 3, 4]) if windowed else None,
+            'ex': rng.choice(['empty', 'rows'])}
+
+
+def check_intlabel(case, ctx):
+    """groupby (plain or over a window of n rows) on a frame built from a bare array: columns 0, 1, 2"""
+    from streamz import Stream
+    from streamz.dataframe import DataFrame
+    ctx.begin_case()
+    df = pd.DataFrame(np.array(case['rows'], dtype='float64'))
+    df[1] = df[1].astype('int64')
+    df[2] = df[2].astype('int64')
+    if case['by'] == case['sel'] or (isinstance(case['sel'], list) and case['by'] in case['sel']):
+        case = dict(case, by=1, sel=0)
+    batches = split(df, case['sizes'])
+    label = 'intlabel-%sgroupby[%s].%s' % ('window-n.' if case['win'] else '', 'series' if not isinstance(case['sel'], list) else 'frame', case['agg'])
+    ctx.note('aggregations', label)
+    example = pd.DataFrame(np.array([[1024.5, 7, 9], [-2048.25, 8, 9]]))
+    example[1] = example[1].astype('int64')
+    example[2] = example[2].astype('int64')
+    got = []
+    try:
+        src = Stream()
+        sdf = DataFrame(src, example=example if case['ex'] == 'rows' else example.iloc[:0])
+        g = (sdf.window(n=case['win']) if case['win'] else sdf).groupby(case['by'])[case['sel']]
+        r = g.size() if case['agg'] == 'size' else getattr(g, case['agg'])()
+        sk = r.stream.sink(got.append)
+    except Exception as e:                                 # noqa: BLE001
+        ctx.violate('build-exception@%s' % label, '%s cannot be built: %r' % (label, e), case)
+        return 0
+    compared, cum = 0, 0
+    try:
+        for k, b in enumerate(batches):
+            n0 = len(got)
+            try:
+                src.emit(b)
+            except Exception as e:                         # noqa: BLE001
+                cum += len(b)
+                if cum:
+                    ctx.violate('exception@%s' % label, '%s: batch %d raised %r' % (label, k + 1, e), case)
+                    return compared
+                continue
+            cum += len(b)
+            if cum == 0 or len(got) == n0:
+                continue
+            prefix = df.iloc[:cum]
+            if case['win']:
+                prefix = prefix.iloc[-case['win']:]
+            pg = prefix.groupby(case['by'])[case['sel']]
+            exp = pg.size() if case['agg'] == 'size' else getattr(pg, case['agg'])()
+            ctx.count('cmp_total')
+            ctx.count('cmp_integer_column_labels')
+            d = compare(got[-1], exp)
+            if d is not None:
+                ctx.violate('%s@%s' % (d[0], label), '%s: after batch %d emitted %s, pandas gives %s (%s)'
+                            % (label, k + 1, show(got[-1], 160), show(exp, 160), d[1]), case)
+                return compared
+            if len(b):
+                compared += 1
+    finally:
+        try:
+            sk.destroy()
+        except Exception:                                  # noqa: BLE001
+            pass
+    return compared
